@@ -109,7 +109,8 @@ def record_events(text):
             self.ev.append(["E", tag])
 
         def handle_data(self, d):
-            self.ev.append(["T", d])
+            # cdata_elem is set by html.parser while it is inside <script> / <style>
+            self.ev.append(["T", d, self.cdata_elem is not None])
 
         def handle_charref(self, r):
             self.ev.append(["CR", r])
@@ -235,19 +236,19 @@ def run_case(case):
     simpleTAL, simpleTALES = _mods()
     res = {"id": case.get("id")}
     del canary()[:]
+    want = case.get("want", ())
+    if "events" in want:
+        res["events"] = {"main": record_events(case["main"])}
     try:
         main = simpleTAL.compileHTMLTemplate(case["main"])
         lib = simpleTAL.compileHTMLTemplate(case["lib"]) if case.get("lib") is not None else None
     except Exception as e:   # TemplateParseException and anything else
         res["compile_exc"] = type(e).__name__ + ": " + str(e)
         return res
-    want = case.get("want", ())
     if "prog" in want:
         res["prog"] = {"main": canon_program(main)}
         if lib is not None:
             res["prog"]["lib"] = canon_program(lib)
-    if "events" in want:
-        res["events"] = {"main": record_events(case["main"])}
     ctx = make_context(case, main, lib)
     if "snap" in want:
         res["snap0"] = snapshot(ctx)
@@ -336,9 +337,101 @@ def op_tal_handler(job):
     return results
 
 
+def _cval(v):
+    """what Context.evaluate's callers look at: text, is None, == default marker, bool()"""
+    simpleTAL, simpleTALES = _mods()
+    text = v if isinstance(v, str) else str(v)
+    try:
+        isdef = bool(v == simpleTALES.DEFAULTVALUE)
+    except Exception:
+        isdef = False
+    return [text, v is None, isdef, bool(v)]
+
+
+def op_tal_eval(job):
+    """Context.evaluate on single expressions; every traversePath call and every python evaluation
+    of the real code is recorded (the wrappers only observe)."""
+    simpleTAL, simpleTALES = _mods()
+    logging.disable(logging.CRITICAL)
+    out = []
+    real_eval = builtins.eval
+    for case in job["cases"]:
+        ctx = simpleTALES.Context(options=None, allowPythonPath=case["allow"])
+        counter = [0]
+        for name in sorted(case["ctx"]):
+            ctx.addGlobal(name, build_value(case["ctx"][name], counter))
+        trav, pyres, evals = [], [], [0]
+        orig_trav, orig_py = ctx.traversePath, ctx.evaluatePython
+
+        def trav_wrapper(expr, canCall=1, _o=orig_trav):
+            try:
+                v = _o(expr, canCall)
+            except simpleTALES.PathNotFoundException:
+                trav.append([expr, bool(canCall), None])
+                raise
+            trav.append([expr, bool(canCall), _cval(v)])
+            return v
+
+        def py_wrapper(expr, _o=orig_py):
+            v = _o(expr)
+            pyres.append([expr, _cval(v)])
+            return v
+
+        def counting_eval(*a, **k):
+            evals[0] += 1
+            return real_eval(*a, **k)
+
+        ctx.traversePath = trav_wrapper
+        ctx.evaluatePython = py_wrapper
+        simpleTALES.eval = counting_eval
+        try:
+            res = []
+            for expr in case["exprs"]:
+                del trav[:], pyres[:]
+                evals[0] = 0
+                try:
+                    v = ctx.evaluate(expr)
+                    r = {"res": _cval(v)}
+                except simpleTALES.PathNotFoundException:
+                    r = {"res": None}
+                except BaseException as e:
+                    r = {"exc": type(e).__name__ + ": " + str(e)}
+                r.update({"trav": [list(t) for t in trav], "py": [list(t) for t in pyres], "evals": evals[0]})
+                res.append(r)
+            out.append(res)
+        finally:
+            del simpleTALES.eval
+    return out
+
+
+def op_tal_escape(job):
+    """tagAsText of interpreter and compiler, and the three ways data reaches the output."""
+    simpleTAL, simpleTALES = _mods()
+    logging.disable(logging.CRITICAL)
+    interp = simpleTAL.TemplateInterpreter()
+    comp = simpleTAL.HTMLTemplateCompiler()
+    comp.minimizeBooleanAtts = 0
+    t_text = simpleTAL.compileHTMLTemplate('<p tal:content="v">d</p>')
+    t_struct = simpleTAL.compileHTMLTemplate('<p tal:content="structure v">d</p>')
+    t_attr = simpleTAL.compileHTMLTemplate('<p id="i" tal:attributes="title v">x</p>')
+    out = []
+    for tag, atts, v in job["inputs"]:
+        row = [interp.tagAsText((tag, [tuple(a) for a in atts])), comp.tagAsText((tag, [tuple(a) for a in atts]))]
+        for tpl in (t_text, t_struct, t_attr):
+            ctx = simpleTALES.Context()
+            ctx.addGlobal("v", v)
+            f = io.StringIO()
+            tpl.expand(ctx, f)
+            row.append(f.getvalue())
+        out.append(row)
+    return out
+
+
 def register(OPS, drv):
     global _drv
     _drv = drv
     OPS["tal_cases"] = op_tal_cases
     OPS["tal_repeatvar"] = op_tal_repeatvar
     OPS["tal_handler"] = op_tal_handler
+    OPS["tal_eval"] = op_tal_eval
+    OPS["tal_escape"] = op_tal_escape
